@@ -1287,6 +1287,11 @@ pub struct Br {
     /// not excuse taking more collateral than that was worth
     #[serde(default)]
     pub repay_all: bool,
+    /// before the bracket the victim deposits a small position (worth `dollars` as for `ws`) in a third bank; the
+    /// risk admin takes it with `withdraw(amount = 0, withdraw_all = true)` as the first withdrawal of the bracket —
+    /// the amount argument says nothing about what leaves the vault, the limit must be measured on the latter
+    #[serde(default)]
+    pub all2: Option<Wd>,
 }
 #[derive(Clone, Debug, Serialize, Deserialize, PartialEq)]
 pub struct DCase {
@@ -1307,7 +1312,7 @@ const GAPS: &[u32] = &[0, 1, 100, 43_200, 86_399, 86_400, 86_401, 172_800];
 fn dcase_strategy() -> BoxedStrategy<DCase> {
     let wd = (prop_oneof![2 => Just(0u8), 3 => Just(1u8)], prop_oneof![3 => 0u32..20, 2 => 20u32..2_000, 1 => 2_000u32..10_000], prop_oneof![5 => -2i8..=0, 2 => 1i8..=2], prop_oneof![3 => Just(0u16), 2 => 1u16..1000, 1 => Just(999u16)])
         .prop_map(|(mode, dollars, delta, frac_pm)| Wd { mode, dollars, delta, frac_pm });
-    let br = (prop::sample::select(GAPS.to_vec()), prop::collection::vec(wd, 1..=3), prop_oneof![6 => 1_050u16..1_500, 1 => 900u16..1_000, 1 => Just(1_000u16)]).prop_map(|(gap, ws, repay_pm)| Br { gap, ws, repay_pm, repay_all: repay_pm % 4 == 1 });
+    let br = (prop::sample::select(GAPS.to_vec()), prop::collection::vec(wd.clone(), 1..=3), prop_oneof![6 => 1_050u16..1_500, 1 => 900u16..1_000, 1 => Just(1_000u16)], prop::option::weighted(0.35, wd.clone())).prop_map(|(gap, ws, repay_pm, all2)| Br { gap, ws, repay_pm, repay_all: all2.is_none() && repay_pm % 4 == 1, all2 });
     (
         prop_oneof![Just(6u8), Just(8u8), Just(9u8)],
         0u8..5,
@@ -1344,7 +1349,9 @@ fn d_world(c: &DCase) -> Option<World> {
         curve: CurveSpec { zero: 10_000_000, hundred: 1_000_000_000, points: vec![], ins_fixed: 1_000, ins_ir: 10_000, prot_fixed: 0, prot_ir: 0, orig: 0 },
         ..BankSpec::default()
     };
-    let mut w = World::build(&WorldSpec { banks: vec![b0, b1], n_users: 2, ..WorldSpec::default() }).ok()?;
+    // a third bank ($1 fixed, same weights as the collateral bank) for small positions taken with withdraw_all
+    let b2 = BankSpec { decimals: 6, oracle: OracleSpec::fixed(1_000_000, -6), aw_i: 500_000, aw_m: 750_000, ..BankSpec::default() };
+    let mut w = World::build(&WorldSpec { banks: vec![b0, b1, b2], n_users: 2, ..WorldSpec::default() }).ok()?;
     let u = w.users.clone();
     // $2M of collateral, $2M lent, $200k borrowed
     let coll: u128 = 2_000_000u128 * 10u128.pow(c.dec as u32) * 1_000_000 / mant as u128;
@@ -1372,6 +1379,8 @@ pub struct DStats {
     pub floor_of_sum_exceeds: u32,
     pub rejected_within_limit: u32,
     pub outside_checked: u32,
+    pub withdraw_all_in_bracket: u32,
+    pub withdraw_all_committed: u32,
     pub codes: Vec<u64>,
 }
 
@@ -1424,11 +1433,67 @@ pub fn run_dcase(c: &DCase, st: &mut DStats) -> Result<(), (String, String)> {
         // model window as it would be at this time
         let (mut m_start, mut m_floor, mut m_exact) = (win_start, sum_floor.clone(), sum_exact.clone());
         let mut restarted = false;
-        let riskm = w.risk_metas(&victim, None, None);
-        let mut ixs = vec![w.ix_start_deleverage(victim, risk)];
         let mut total_value_hi = q_zero();
         let mut crosses = false;
         let mut exact_hit = false;
+        // the small third-bank position the risk admin will take with withdraw_all (deposited by the victim now, i.e.
+        // before the bracket); its model value comes from what is actually in the position
+        let mut all2_amount: Option<u64> = None;
+        if let Some(wd) = &br.all2 {
+            let bank2 = w.bank(2);
+            if let Some(p2) = oracle_view(&w.vm, &bank2, now).low(PriceKind::Spot) {
+                if c.limit != 0 && now - m_start >= 86_400 {
+                    m_start = now;
+                    m_floor = q_zero();
+                    m_exact = q_zero();
+                    restarted = true;
+                }
+                let remaining = &limit_q - &m_floor;
+                let dollars: Q = if c.limit == 0 {
+                    q_int(wd.dollars)
+                } else if wd.mode == 0 {
+                    let m = (remaining.to_integer() + num_bigint::BigInt::from(2)).to_u64().unwrap_or(1).max(1);
+                    q_int(wd.dollars as u64 % m)
+                } else {
+                    remaining + q_int(wd.delta as i64)
+                } + q_ratio(wd.frac_pm as u64, 1000u64);
+                let amount = if dollars.is_positive() && p2.lo.is_positive() { q_ceil(&(&dollars * pow10(6) / &p2.lo)).to_u64().unwrap_or(0) } else { 0 };
+                let u0 = w.users[0].clone();
+                if amount > 0 && w.vm.exec(&w.ix_deposit(victim, u0.auth, 2, u0.tokens[2], amount, None)).is_ok() {
+                    // what the position holds (nobody borrows bank 2: share value 1, so this is `amount`)
+                    let a = w.macct(&victim);
+                    let bits = a.lending_account.balances.iter().find(|b| b.active != 0 && b.bank_pk == w.banks[2].key).map(|b| crate::snap::bits(b.asset_shares)).unwrap_or(0);
+                    let units = q_floor(&(q_bits(bits) * q_w(w.bank(2).asset_share_value))).to_u64().unwrap_or(0);
+                    if units > 0 {
+                        let v = Iv::point(q_int(units)).mul(&p2).trunc().mul_q(&(q_one() / pow10(6))).trunc();
+                        let v_lo = q_max(v.lo.clone(), q_zero());
+                        m_floor += Q::from_integer(q_floor(&v_lo));
+                        m_exact += &v_lo;
+                        total_value_hi += &v.hi;
+                        if c.limit != 0 {
+                            if Q::from_integer(q_floor(&v.hi)) + (&m_floor - Q::from_integer(q_floor(&v_lo))) > limit_q {
+                                crosses = true;
+                            }
+                            if m_floor == limit_q {
+                                exact_hit = true;
+                            }
+                        }
+                        all2_amount = Some(units);
+                    }
+                }
+            }
+        }
+        let riskm = w.risk_metas(&victim, None, None);
+        let mut ixs = vec![w.ix_start_deleverage(victim, risk)];
+        if all2_amount.is_some() {
+            let rt2 = kp("c12_risk_tok", 2);
+            if w.vm.get(&rt2).is_none() {
+                let a2 = w.make_token_acct(&w.banks[2].clone(), risk, 0);
+                w.vm.set(rt2, a2);
+            }
+            ixs.push(w.ix_withdraw_with(victim, risk, 2, rt2, 0, Some(true), riskm.clone()));
+            st.withdraw_all_in_bracket += 1;
+        }
         for wd in &br.ws {
             if c.limit != 0 && now - m_start >= 86_400 {
                 m_start = now;
@@ -1476,7 +1541,7 @@ pub fn run_dcase(c: &DCase, st: &mut DStats) -> Result<(), (String, String)> {
         let p1 = oracle_view(&w.vm, &bank1, now).high(PriceKind::Spot).map(|p| p.lo).unwrap_or_else(q_one);
         let need = &total_value_hi * q_w(bank0.config.asset_weight_maint) / (q_w(bank1.config.liability_weight_maint) * &p1) * pow10(6);
         let repay = (q_ceil(&(need * q_ratio(br.repay_pm as u64, 1000u64))).to_u64().unwrap_or(u64::MAX / 4)).saturating_add(if br.repay_pm > 1000 { 5 } else { 0 });
-        if br.repay_all {
+        if br.repay_all && all2_amount.is_none() {
             // one more, large withdrawal: around what clearing the whole debt is worth at maintenance weights
             // (repay_pm / 1000 of it: below, at and above the health-neutral amount)
             if c.limit == 0 {
@@ -1494,7 +1559,8 @@ pub fn run_dcase(c: &DCase, st: &mut DStats) -> Result<(), (String, String)> {
             ixs.push(w.ix_end_deleverage(victim, risk, w.risk_metas(&victim, None, Some(w.banks[1].key))));
         } else {
             ixs.push(w.ix_repay(victim, risk, 1, rt1, repay.max(1), None));
-            ixs.push(w.ix_end_deleverage(victim, risk, riskm.clone()));
+            let end_metas = if all2_amount.is_some() { w.risk_metas(&victim, None, Some(w.banks[2].key)) } else { riskm.clone() };
+            ixs.push(w.ix_end_deleverage(victim, risk, end_metas));
         }
         // malformed brackets never commit: no end; a withdraw after the end
         {
@@ -1526,6 +1592,9 @@ pub fn run_dcase(c: &DCase, st: &mut DStats) -> Result<(), (String, String)> {
             continue;
         }
         st.committed += 1;
+        if all2_amount.is_some() {
+            st.withdraw_all_committed += 1;
+        }
         // commit the model window
         if restarted {
             st.window_restarts += 1;
@@ -1655,6 +1724,8 @@ fn run_delev_stream(ctx: &Ctx, wi: usize, cases: u32, rep: &mut Report) {
             rep.label_n("C:bracket:committed:exactly-at-limit", st.exactly_at_limit as u64);
             rep.label_n("C:bracket:committed:window-restart", st.window_restarts as u64);
             rep.label_n("C:outside-bracket-withdraw-refused", st.outside_checked as u64);
+            rep.label_n("C:bracket-with-withdraw_all", st.withdraw_all_in_bracket as u64);
+            rep.label_n("C:bracket-with-withdraw_all-committed", st.withdraw_all_committed as u64);
             for g in &st.boundary_commit {
                 rep.label(&format!("C:window-restart-at-gap:{g}"));
             }
